@@ -698,7 +698,13 @@ func generatePaths(r *lib.Run, g gen, do func(kind string, c nicCfg, args ...str
 		rd := "-"
 		if rng.Chance(60) {
 			rd = strconv.Itoa(rng.Pick(0, 1, 1800, 65535, 65536, 4294967295))
-			for j := rng.Pick(0, 1, 1, 2, 3); j > 0; j-- {
+			nsrv := rng.Pick(0, 1, 1, 2, 3)
+			if !big && rng.Chance(12) {
+				// RFC 8106 5.1: as many servers as the length octet allows; 15 / 16 straddle Length = 32 (where
+				// Length*8 no longer fits a byte), 86 / 87 what fits the buffer next to one prefix
+				nsrv = rng.Pick(15, 16, 17, 31, 40, 86, 87, 127, 128)
+			}
+			for j := nsrv; j > 0; j-- {
 				rd += "/" + ipTok(g.ip6())
 			}
 			if !strings.Contains(rd, "/") {
